@@ -4,6 +4,9 @@ import os
 import time
 
 VERIF = os.path.dirname(os.path.dirname(os.path.abspath(__file__)))
+# evidence/replay output directory (overridable so that selftest/seed runs against a scratch repo do not touch the
+# evidence of the registered checks)
+OUT = os.environ.get("VERIF_OUT", os.path.join(VERIF, "evidence"))
 
 
 class Result:
@@ -78,7 +81,7 @@ class Result:
             else:
                 new.append(v)
         rc = 0
-        replay_dir = os.path.join(VERIF, "evidence", "replay")
+        replay_dir = os.path.join(OUT, "replay")
         os.makedirs(replay_dir, exist_ok=True)
         seen_keys = set()
         for v in new:
@@ -132,6 +135,6 @@ class Result:
             "wall_s": round(time.time() - self.t0, 2),
             "violations": nviol,
         }
-        os.makedirs(os.path.join(VERIF, "evidence"), exist_ok=True)
-        json.dump(ev, open(os.path.join(VERIF, "evidence", self.prop + ".json"), "w"), indent=1,
+        os.makedirs(OUT, exist_ok=True)
+        json.dump(ev, open(os.path.join(OUT, self.prop + ".json"), "w"), indent=1,
                   default=str)
